@@ -194,6 +194,9 @@ func c12PrintVal(r *Rng, v *c12Val) string {
 		return "{" + strings.Join(parts, ", ") + "}"
 	}
 	a := v.atom
+	if a.kind == 2 {
+		return c12FloatToken(a.text)
+	}
 	if a.kind != 0 {
 		return a.text
 	}
@@ -235,6 +238,14 @@ func c12PrintDoc(r *Rng, evs []c12Ev) string {
 }
 
 // ---- facts of a cue.Value ------------------------------------------------------------
+
+// c12FloatToken spells a canonical float text as a float token of TOML and CUE
+func c12FloatToken(s string) string {
+	if strings.ContainsAny(s, ".eE") {
+		return s
+	}
+	return s + ".0"
+}
 
 func c12FloatCanon(f float64) string { return strconv.FormatFloat(f, 'g', -1, 64) }
 
@@ -401,6 +412,8 @@ func (t *c12Tree) cue(b *strings.Builder) {
 	default:
 		if t.atom.kind == 0 {
 			b.WriteString(c12CueString(t.atom.text))
+		} else if t.atom.kind == 2 {
+			b.WriteString(c12FloatToken(t.atom.text))
 		} else {
 			b.WriteString(t.atom.text)
 		}
